@@ -12,7 +12,9 @@
    i-th parameter are one location; unmapped otherwise; lexical in arrow functions), redeclarations (var over parameter, var
    over function, several function declarations of one name), for (let / const / var x of [list]) with a fresh binding per iteration,
    direct eval code (EvalDeclarationInstantiation: sloppy var declarations land in the caller's variable environment at run time);
-   logical assignment (||= &&= ??=), && || ?? ?:, prefix / postfix ++ --; expressions: number literals, identifier reference,
+   logical assignment (||= &&= ??=), && || ?? ?:, prefix / postfix ++ --; object literals with data properties and getters, property
+   reads, destructuring (object patterns in declarations, parameters and assignments with defaults; array patterns against array
+   literals); expressions: number literals, identifier reference,
    typeof identifier, =, +=, postfix ++, +, <, comma, calls, log(e); strict and sloppy code (assignment to an undeclared
    name, to a const, to the own name of a named function expression).
 
@@ -51,6 +53,7 @@ Bool(b) == [t |-> "bool", v |-> IF b THEN 1 ELSE 0]
 Fn(i) == [t |-> "fn", v |-> i]
 Err(c) == [t |-> "err", v |-> c]
 Other == [t |-> "other", v |-> 0]
+Obj(i) == [t |-> "obj", v |-> i]
 RefErr == Err(9998)
 TypeErr == Err(9999)
 
@@ -59,6 +62,7 @@ Code(v) == CASE v.t = "num" -> v.v
               [] v.t = "undef" -> -1000
               [] v.t = "fn" -> -1001
               [] v.t = "err" -> v.v
+              [] v.t = "obj" -> -1003
               [] OTHER -> -1002
 IsNaN(v) == v.t = "num" /\ v.v = NaNv
 \* 7.1.4 ToNumber
@@ -66,15 +70,16 @@ ToNum(v) == CASE v.t = "num" -> v.v
                [] v.t = "bool" -> v.v
                [] OTHER -> NaNv          \* undefined, functions, error objects
 \* 13.15.3 ApplyStringOrNumericBinaryOperator for +
-ValAdd(a, b) == IF a.t \in {"fn", "err", "other"} \/ b.t \in {"fn", "err", "other"} THEN Other      \* string concatenation
+Stringy == {"fn", "err", "other", "obj"}          \* ToPrimitive gives a string
+ValAdd(a, b) == IF a.t \in Stringy \/ b.t \in Stringy THEN Other      \* string concatenation
                 ELSE IF ToNum(a) = NaNv \/ ToNum(b) = NaNv THEN Num(NaNv) ELSE Num(ToNum(a) + ToNum(b))
-ValLt(a, b) == IF a.t \in {"fn", "err", "other"} /\ b.t \in {"fn", "err", "other"} THEN Other     \* string comparison: not modelled
+ValLt(a, b) == IF a.t \in Stringy /\ b.t \in Stringy THEN Other     \* string comparison: not modelled
                ELSE IF ToNum(a) = NaNv \/ ToNum(b) = NaNv THEN Bool(FALSE) ELSE Bool(ToNum(a) < ToNum(b))
 Truthy(v) == CASE v.t = "num" -> v.v # 0 /\ v.v # NaNv
                 [] v.t = "bool" -> v.v = 1
                 [] v.t = "undef" -> FALSE
                 [] OTHER -> TRUE
-TypeofCode(v) == CASE v.t = "num" -> 1 [] v.t = "undef" -> 2 [] v.t = "fn" -> 3 [] v.t = "bool" -> 4 [] v.t = "err" -> 6 [] OTHER -> 5
+TypeofCode(v) == CASE v.t = "num" -> 1 [] v.t = "undef" -> 2 [] v.t = "fn" -> 3 [] v.t = "bool" -> 4 [] v.t \in {"err", "obj"} -> 6 [] OTHER -> 5
 
 -----------------------------------------------------------------------------
 \* Store and environment records
@@ -84,7 +89,9 @@ NoVars == [n \in Names |-> Absent]
 \* such an environment only: the argument values as passed, the parameter names, the number of MAPPED arguments
 \* venv: the variable environment that sloppy direct eval code adds its var declarations to (the function's, or the global one)
 Env(parent, vs, fenv, venv) == [parent |-> parent, vars |-> vs, fenv |-> fenv, venv |-> venv, args |-> <<>>, alen |-> 0, ps |-> <<>>, nmap |-> 0]
-Store0 == [envs |-> <<Env(0, NoVars, 1, 1)>>, fns |-> <<>>, log |-> <<>>, fuel |-> 400]    \* envs[1]: the global environment
+Store0 == [envs |-> <<Env(0, NoVars, 1, 1)>>, fns |-> <<>>, objs |-> <<>>, log |-> <<>>, fuel |-> 400]    \* envs[1]: the global environment
+\* objects (literals with the keys a / b): [a, b |-> [k: "none" | "data" | "get", v: the value / the getter function]]
+PropNone == [k |-> "none", v |-> Undef]
 
 Ok(st, v) == [st |-> st, c |-> [ty |-> "normal", v |-> v]]
 Thr(st, v) == [st |-> st, c |-> [ty |-> "throw", v |-> v]]
@@ -124,7 +131,9 @@ PutRef(st, r, x, v, strict) ==
 
 \* static semantics: VarDeclaredNames / LexicallyDeclaredNames / hoisted function declarations of a statement list
 RECURSIVE VarNames(_), VarNamesL(_, _)
+PatTargets(pat) == {pat.k[j].x : j \in 1..Len(pat.k)}
 VarNames(s) == CASE s.t = "var" -> {s.x}
+                 [] s.t = "varp" -> PatTargets(s.pat)
                  [] s.t \in {"block", "if"} -> VarNamesL(s.k, IF s.t = "if" THEN 2 ELSE 1)
                  [] s.t = "for" -> (IF s.n = 1 THEN {s.x} ELSE {}) \cup VarNames(s.k[4])
                  [] s.t = "try" -> VarNamesL(s.k, 1)
@@ -133,21 +142,22 @@ VarNames(s) == CASE s.t = "var" -> {s.x}
                  [] s.t = "case" -> VarNamesL(s.k, 2)
                  [] OTHER -> {}
 VarNamesL(l, i) == IF i > Len(l) THEN {} ELSE VarNames(l[i]) \cup VarNamesL(l, i + 1)
-LexDecls(l) == {i \in 1..Len(l) : l[i].t \in {"let", "const"}}
+LexDecls(l) == {i \in 1..Len(l) : l[i].t \in {"let", "const", "letp", "constp"}}
+DeclTargets(d) == IF d.t \in {"letp", "constp"} THEN PatTargets(d.pat) ELSE {d.x}
 FDecls(l) == {i \in 1..Len(l) : l[i].t = "fdecl"}
 \* a fresh declarative environment with the lexical declarations of the list in their temporal dead zone
-LexVars(l, base) == [n \in Names |-> IF \E i \in LexDecls(l) : l[i].x = n
-                                     THEN TDZ(IF \E i \in LexDecls(l) : l[i].x = n /\ l[i].t = "const" THEN "const" ELSE "mut")
+LexVars(l, base) == [n \in Names |-> IF \E i \in LexDecls(l) : n \in DeclTargets(l[i])
+                                     THEN TDZ(IF \E i \in LexDecls(l) : n \in DeclTargets(l[i]) /\ l[i].t \in {"const", "constp"} THEN "const" ELSE "mut")
                                      ELSE base[n]]
 
 -----------------------------------------------------------------------------
 RECURSIVE EvalE(_, _, _, _), EvalS(_, _, _, _), EvalL(_, _, _, _, _), EvalArgs(_, _, _, _, _, _), CallFn(_, _, _),
-          EvalBlock(_, _, _, _), ForLoop(_, _, _, _, _), HoistF(_, _, _, _, _), BindParams(_, _, _, _, _, _),
+          EvalBlock(_, _, _, _), ForLoop(_, _, _, _, _), EvalProps(_, _, _, _, _, _), GetV(_, _, _), BindPat(_, _, _, _, _, _, _), HoistF(_, _, _, _, _), BindParams(_, _, _, _, _, _),
           FindCase(_, _, _, _, _, _), RunCases(_, _, _, _, _), ForOf(_, _, _, _, _, _)
 
 \* closures: [p: parameter names, body: statement list, env, kind: "arrow" | "func" | "named", name, strict]
 MkFn(st, e, env, strict) ==
-  LET cl == [p |-> e.p, d |-> e.d, body |-> e.k, env |-> env, kind |-> e.kind, name |-> e.x, strict |-> strict \/ e.s = 1]
+  LET cl == [p |-> e.p, d |-> e.d, pp |-> e.pp, body |-> e.k, env |-> env, kind |-> e.kind, name |-> e.x, strict |-> strict \/ e.s = 1]
   IN [st |-> [st EXCEPT !.fns = Append(@, cl)], id |-> Len(st.fns) + 1]
 
 EvalE(e, env, st, sm) ==
@@ -197,6 +207,16 @@ EvalE(e, env, st, sm) ==
                        ELSE LET b == EvalE(e.k[2], env, a.st, sm) IN
                             IF Abrupt(b) THEN b
                             ELSE Ok(b.st, Num(IF ToNum(a.c.v) = NaNv \/ ToNum(b.c.v) = NaNv THEN NaNv ELSE ToNum(a.c.v) - ToNum(b.c.v))))
+    \* 13.2.5 object literal: properties in order, a getter is a function object created here
+    [] e.t = "objlit" -> (LET r == EvalProps(e.k, 1, env, st, sm, [a |-> PropNone, b |-> PropNone]) IN
+                          IF Abrupt(r.r) THEN r.r
+                          ELSE LET st2 == [r.r.st EXCEPT !.objs = Append(@, r.rec)] IN Ok(st2, Obj(Len(st2.objs))))
+    [] e.t = "mget" -> (LET o == EvalE(e.k[1], env, st, sm) IN IF Abrupt(o) THEN o ELSE GetV(o.st, o.c.v, e.x))
+    \* 13.15.5 destructuring assignment: the right-hand side first, then for every property: target reference, GetV, default, PutValue
+    [] e.t = "passign" -> (LET rv == EvalE(e.k[1], env, st, sm) IN
+                           IF Abrupt(rv) THEN rv
+                           ELSE LET b == BindPat(e.pat, 1, rv.c.v, env, rv.st, sm, "assign") IN
+                                IF Abrupt(b) THEN b ELSE Ok(b.st, rv.c.v))
     [] e.t = "fn" -> (LET m == MkFn(st, e, env, sm) IN Ok(m.st, Fn(m.id)))
     [] e.t = "call" -> (LET f == EvalE(e.k[1], env, st, sm) IN
                         IF "calleeLate" \in Deviations /\ e.k[1].t = "ref" /\ Resolve(st, env, e.k[1].x) = 0
@@ -229,6 +249,39 @@ EvalE(e, env, st, sm) ==
                                                      IF i = e.n + 1 THEN r.c.v ELSE IF i <= Len(F.args) THEN F.args[i] ELSE Undef]
                                     IN Ok([r.st EXCEPT !.envs[fe].args = padded], r.c.v))
 
+EvalProps(k, i, env, st, sm, rec) ==
+  IF i > Len(k) THEN [r |-> Ok(st, Undef), rec |-> rec]
+  ELSE LET pr == k[i] IN
+       IF pr.kind = "get"
+       THEN LET m == MkFn(st, pr.k[1], env, sm) IN EvalProps(k, i + 1, env, m.st, sm, [rec EXCEPT ![pr.x] = [k |-> "get", v |-> Fn(m.id)]])
+       ELSE LET v == EvalE(pr.k[1], env, st, sm) IN
+            IF Abrupt(v) THEN [r |-> v, rec |-> rec]
+            ELSE EvalProps(k, i + 1, env, v.st, sm, [rec EXCEPT ![pr.x] = [k |-> "data", v |-> v.c.v]])
+
+\* 7.3.3 GetV: ToObject(undefined) throws; the keys a / b exist on object literals only; a getter runs
+GetV(st, v, key) ==
+  IF v.t = "undef" THEN Thr(st, TypeErr)
+  ELSE IF v.t # "obj" THEN Ok(st, Undef)
+  ELSE LET pr == st.objs[v.v][key] IN
+       IF pr.k = "none" THEN Ok(st, Undef) ELSE IF pr.k = "data" THEN Ok(st, pr.v) ELSE CallFn(st, pr.v.v, <<>>)
+
+\* 8.6.2 / 14.3.3 BindingInitialization and 13.15.5.x for a pattern  pat = [t: "opat" | "apat", k: elements [x: target, key | n, k: <<default>>]]
+\* against a value (an array pattern is matched against the list of element values of an array literal).  mode: "let" / "const" /
+\* "param" initialise the binding in env; "var" / "assign" resolve the target FIRST, then read the property, then PutValue
+ElemV(st, pat, val, pe) == IF pat.t = "apat" THEN Ok(st, IF pe.n <= Len(val.l) THEN val.l[pe.n] ELSE Undef) ELSE GetV(st, val, pe.key)
+BindPat(pat, i, val, env, st, sm, mode) ==
+  IF i = 1 /\ pat.t = "opat" /\ val.t = "undef" THEN Thr(st, TypeErr)                  \* RequireObjectCoercible
+  ELSE IF i > Len(pat.k) THEN Ok(st, Undef)
+  ELSE LET pe == pat.k[i]
+           r0 == IF mode \in {"var", "assign"} THEN Resolve(st, env, pe.x) ELSE 0
+           g == ElemV(st, pat, val, pe)
+       IN IF Abrupt(g) THEN g
+          ELSE LET dv == IF g.c.v.t = "undef" /\ Len(pe.k) > 0 THEN EvalE(pe.k[1], env, g.st, sm) ELSE g IN
+               IF Abrupt(dv) THEN dv
+               ELSE LET b == IF mode \in {"var", "assign"} THEN PutRef(dv.st, r0, pe.x, dv.c.v, sm)
+                             ELSE Ok(SetB(dv.st, env, pe.x, Init(dv.c.v, IF mode = "const" THEN "const" ELSE "mut")), Undef)
+                    IN IF Abrupt(b) THEN b ELSE BindPat(pat, i + 1, val, env, b.st, sm, mode)
+
 \* arguments left to right; result [r: last evaluation (for the store / an abrupt completion), vals]
 EvalArgs(k, i, env, st, sm, acc) ==
   IF i > Len(k) THEN [r |-> Ok(st, Undef), vals |-> acc]
@@ -241,8 +294,8 @@ HoistF(l, idx, env, st, sm) ==       \* instantiate the function declarations of
   ELSE IF l[idx].t # "fdecl" THEN HoistF(l, idx + 1, env, st, sm)
   ELSE LET m == MkFn(st, l[idx], env, sm) IN HoistF(l, idx + 1, env, SetB(m.st, env, l[idx].x, Init(Fn(m.id), "mut")), sm)
 
-HasDefaults(cl) == \E i \in 1..Len(cl.d) : cl.d[i].t # "none"
-IsParam(cl, n) == \E i \in 1..Len(cl.p) : cl.p[i] = n
+HasDefaults(cl) == (\E i \in 1..Len(cl.d) : cl.d[i].t # "none") \/ (\E i \in 1..Len(cl.pp) : cl.pp[i].t # "none")
+IsParam(cl, n) == (\E i \in 1..Len(cl.p) : cl.p[i] = n) \/ (\E i \in 1..Len(cl.pp) : cl.pp[i].t # "none" /\ n \in PatTargets(cl.pp[i]))
 MinI(a, b) == IF a < b THEN a ELSE b
 
 \* 10.2.11 steps 24-26 with parameter expressions: parameters are initialised left to right in the parameter scope; a default
@@ -253,7 +306,10 @@ BindParams(cl, i, args, penv, st, sm) ==
            r == IF given THEN Ok(st, args[i])
                 ELSE IF cl.d[i].t = "none" THEN Ok(st, Undef)
                 ELSE EvalE(cl.d[i], penv, st, sm)
-       IN IF Abrupt(r) THEN r ELSE BindParams(cl, i + 1, args, penv, SetB(r.st, penv, cl.p[i], Init(r.c.v, "mut")), sm)
+       IN IF Abrupt(r) THEN r
+          ELSE IF i <= Len(cl.pp) /\ cl.pp[i].t # "none"
+          THEN LET b == BindPat(cl.pp[i], 1, r.c.v, penv, r.st, sm, "param") IN IF Abrupt(b) THEN b ELSE BindParams(cl, i + 1, args, penv, b.st, sm)
+          ELSE BindParams(cl, i + 1, args, penv, SetB(r.st, penv, cl.p[i], Init(r.c.v, "mut")), sm)
 
 CallFn(st0, id, args) ==
   LET cl == st0.fns[id] IN
@@ -356,6 +412,15 @@ EvalS(s, env, st, sm) ==
          (LET rv == IF Len(s.k) = 0 THEN Ok(st, Undef) ELSE EvalE(s.k[1], env, st, sm) IN
           IF Abrupt(rv) THEN rv
           ELSE Ok(SetB(rv.st, env, s.x, Init(rv.c.v, IF s.t = "const" THEN "const" ELSE "mut")), Undef))     \* InitializeBinding
+    \* declarations with a pattern: let / const / var {a: x = d, b: y} = e   and   [x = d, y] = [e1, e2]
+    [] s.t \in {"letp", "constp", "varp"} ->
+         (LET rv == IF s.pat.t = "apat"
+                    THEN (LET vs == EvalArgs(s.k[1].k, 1, env, st, sm, <<>>) IN
+                          IF Abrupt(vs.r) THEN vs.r ELSE Ok(vs.r.st, [t |-> "list", l |-> vs.vals, v |-> 0]))
+                    ELSE EvalE(s.k[1], env, st, sm)
+          IN IF Abrupt(rv) THEN rv
+             ELSE LET b == BindPat(s.pat, 1, rv.c.v, env, rv.st, sm, IF s.t = "letp" THEN "let" ELSE IF s.t = "constp" THEN "const" ELSE "var") IN
+                  IF Abrupt(b) THEN b ELSE Ok(b.st, Undef))
     [] s.t = "fdecl" -> Ok(st, Undef)                       \* instantiated on entry
     [] s.t = "block" -> EvalBlock(s.k, env, st, sm)
     [] s.t = "if" -> (LET c == EvalE(s.k[1], env, st, sm) IN
@@ -423,7 +488,7 @@ EvalS(s, env, st, sm) ==
 -----------------------------------------------------------------------------
 \* a program is the body of a parameterless top-level function: [id, strict, body]
 Run(p) ==
-  LET top == [p |-> <<>>, d |-> <<>>, k |-> p.body, kind |-> "func", x |-> "f", s |-> p.strict]
+  LET top == [p |-> <<>>, d |-> <<>>, pp |-> <<>>, k |-> p.body, kind |-> "func", x |-> "f", s |-> p.strict]
       m == MkFn(Store0, top, 1, FALSE)
       r == CallFn(m.st, m.id, <<>>)
   IN [id |-> p.id, log |-> r.st.log,
